@@ -656,6 +656,8 @@ class Progress(JupyterMixin, RenderHook):
             if self._started:
                 return
             self._started = True
+            # nothing is drawn yet: a frame left by an earlier start/stop cycle must not be erased
+            self._live_render._shape = None
             self.console.show_cursor(False)
             self._enable_redirect_io()
             self.console.push_render_hook(self)
